@@ -23,6 +23,13 @@ def queue_field(m, cls=f"{CP}.HTTPConnectionPool"):
             t = n.targets[0] if isinstance(n, ast.Assign) else n.target
             if astq.is_self_attr(t):
                 return t.attr
+    # built in a local first and stored afterwards
+    locals_ = set(astq.assigned_from(init.node, lambda v: isinstance(v, ast.Call) and astq.call_text(v) == "self.QueueCls"))
+    for n in astq.walk_fn(init.node):
+        if isinstance(n, (ast.Assign, ast.AnnAssign)) and isinstance(n.value, ast.Name) and n.value.id in locals_:
+            t = n.targets[0] if isinstance(n, ast.Assign) else n.target
+            if astq.is_self_attr(t):
+                return t.attr
     raise AnalysisError("queue field not found: no `self.<f> = self.QueueCls(...)` in the pool constructor")
 
 
